@@ -323,12 +323,15 @@ Qed.
 Lemma forallb_clean ls : forallb cleanb ls = true -> Forall clean ls.
 Proof. intros H. apply Forall_forall. intros l Hl. apply cleanb_clean. rewrite forallb_forall in H. apply H. exact Hl. Qed.
 
-Lemma slg_line l X cur : no10 l -> split_lines_go (l ++ 10 :: X) cur = (cur ++ l) :: split_lines_go X [].
+Lemma frev_rev {A} (l : list A) : frev l = rev l.
+Proof. unfold frev. symmetry. apply rev_alt. Qed.
+
+Lemma slg_line l X cur : no10 l -> split_lines_go (l ++ 10 :: X) cur = (rev cur ++ l) :: split_lines_go X [].
 Proof.
   revert cur. induction l as [|c l IH]; intros cur H; cbn [app split_lines_go].
-  - rewrite app_nil_r. reflexivity.
+  - rewrite app_nil_r, frev_rev. reflexivity.
   - destruct (c =? 10) eqn:E; [exfalso; apply H; left; lia|].
-    rewrite IH; [|intros Hin; apply H; right; exact Hin]. rewrite <- app_assoc. reflexivity.
+    rewrite IH; [|intros Hin; apply H; right; exact Hin]. cbn [rev]. rewrite <- app_assoc. reflexivity.
 Qed.
 Lemma slg_unlines ls X : Forall no10 ls -> split_lines_go (unlines ls ++ X) [] = ls ++ split_lines_go X [].
 Proof.
@@ -348,14 +351,14 @@ Proof. intros H. rewrite <- (app_nil_r (unlines ls)), split_unlines by exact H. 
 Lemma slg_no10 s : forall cur, no10 cur -> Forall no10 (split_lines_go s cur).
 Proof.
   induction s as [|c r IH]; intros cur Hc; cbn [split_lines_go].
-  - destruct cur; constructor; [exact Hc|constructor].
+  - destruct cur; constructor; [intros Hin; rewrite frev_rev in Hin; apply in_rev in Hin; exact (Hc Hin)|constructor].
   - destruct (c =? 10) eqn:E.
-    + constructor; [exact Hc|]. apply IH. intros [].
-    + apply IH. intros Hin. apply in_app_or in Hin as [Hin|[Hin|[]]]; [exact (Hc Hin)|lia].
+    + constructor; [intros Hin; rewrite frev_rev in Hin; apply in_rev in Hin; exact (Hc Hin)|]. apply IH. intros [].
+    + apply IH. intros [Hin|Hin]; [lia|exact (Hc Hin)].
 Qed.
 Lemma drop_cr_sub l x : In x (drop_cr l) -> In x l.
 Proof.
-  unfold drop_cr. destruct (rev l) as [|c r] eqn:E; [intros H; exact H|].
+  unfold drop_cr. rewrite frev_rev. destruct (rev l) as [|c r] eqn:E; [intros H; exact H|]. rewrite frev_rev.
   destruct (c =? 13) eqn:Ec.
   - assert (c = 13) by lia. subst c. replace (match 13 with 13 => rev r | _ => l end) with (rev r) by reflexivity.
     intros H. rewrite <- (rev_involutive l), E. cbn [rev]. apply in_or_app. left. exact H.
